@@ -82,6 +82,9 @@ deriving Repr
 
 def init : State := {}
 
+/-- any op that is not a write/delete: the previous op's WAL record is no longer "the last thing that happened" -/
+def State.touch (s : State) : State := { s with lastRec := false }
+
 /-! ### cache and file views -/
 
 def filesLog (fs : List TsmFile) : Log := fs.flatMap TsmFile.live
@@ -203,7 +206,7 @@ def stepDelete (s : State) (ss : List Nat) (lo hi : Int) : State :=
 
 def stepSnapBegin (s : State) : State × Obs :=
   match s.phase with
-  | .replaced | .cleared => (s, .blocked)     -- e.mu.Lock() waits for the committing snapshot
+  | .replaced | .cleared => (s.touch, .blocked)     -- e.mu.Lock() waits for the committing snapshot
   | .begun | .written => ({ walCloseSegment s with lastRec := false }, .inProgress)
   | .idle =>
     let s1 := walCloseSegment s
@@ -286,27 +289,27 @@ def step (s : State) : Op → State × Obs
   | .delete ss lo hi =>
     -- DeleteSeriesRange takes e.mu.Lock() (disableLevelCompactions): it waits while the
     -- committing snapshot holds e.mu.RLock()
-    if commitLocked s.phase then (s, .blocked) else (stepDelete s ss lo hi, .ok)
+    if commitLocked s.phase then (s.touch, .blocked) else (stepDelete s ss lo hi, .ok)
   | .snapBegin => stepSnapBegin s
-  | .snapStep => (stepSnapStep s, .ok)
-  | .snapTo p => (stepSnapTo s p, .ok)
+  | .snapStep => ((stepSnapStep s).touch, .ok)
+  | .snapTo p => ((stepSnapTo s p).touch, .ok)
   | .compact i j =>
     if validGroup s.files i j then
       let fs := compactFiles s.files i j
       ({ s with files := fs, lastRec := false }, .nfiles fs.length)
-    else (s, .badGroup)
+    else (s.touch, .badGroup)
   | .compactSet idxs =>
     let fs := compactSetFiles s.files idxs
     ({ s with files := fs, lastRec := false }, .nfiles fs.length)
-  | .read k lo hi asc => (s, .rows (s.read k lo hi asc))
-  | .files => (s, .nfiles s.files.length)
+  | .read k lo hi asc => (s.touch, .rows (s.read k lo hi asc))
+  | .files => (s.touch, .nfiles s.files.length)
   | .crash tear => (stepCrash s tear, .ok)
   | .compactCrash i j pt n =>
     if validGroup s.files i j then
       (openWith s (compactCrashFiles s.files i j pt n) s.wal, .ok)
-    else (s, .badGroup)
+    else (s.touch, .badGroup)
   | .deleteCrash ss lo hi =>
-    if commitLocked s.phase then (s, .blocked)
+    if commitLocked s.phase then (s.touch, .blocked)
     else (openWith s (s.files.map (addTomb ss lo hi)) s.wal, .ok)
 
 /-- run a list of ops, collecting (op, observation) -/
